@@ -258,6 +258,26 @@ def F_rules(ctx, rule="F"):
     for b in try_concurrent_bodies(ctx):
         key = short(b.id)
         rs = [s for s in sends if s["body"].id == b.id and "RESULT" in s["roles"]]
+        helper_send = None
+        if not rs:
+            # the error may be reported through a private async helper called from the per-item body: the call is the send
+            for hbb, ht in b.calls():
+                hp = callee_path(ht)
+                hco = fb.bodies.get((hp or "") + "::{closure#0}")
+                if hp in fb.bodies and hco is not None and hco.kind == "coroutine":
+                    hs = [s2 for s2 in sends if s2["body"].id == hco.id and "RESULT" in s2["roles"]]
+                    if len(hs) == 1:
+                        # value sent = one of the helper's parameters: take the argument of this call
+                        vsrc_h = fl.sources_operand(hco, hs[0]["t"]["args"][1], (), "prov@" + hp)
+                        pidx = None
+                        for s3 in vsrc_h:
+                            if s3.kind == "param" and s3[1] == hp and not s3[3]:
+                                pidx = s3[2]
+                        hs_aw = [a for a in awaits(hco) if a.operand.get("pl", {}).get("l") == hs[0]["t"]["dest"]["l"]]
+                        if pidx is not None and pidx - 1 < len(ht["args"]) and hs_aw and not cond_guards(hco, hs[0]["bb"]):
+                            helper_send = {"body": b, "bb": hbb, "t": {"args": [None, ht["args"][pidx - 1]], "dest": ht["dest"]}, "roles": {"RESULT"}}
+            if helper_send is not None:
+                rs = [helper_send]
         if not rs:
             # control-wrapper adapter closure: F4
             if b.kind == "closure":
@@ -343,6 +363,14 @@ def F_rules(ctx, rule="F"):
         from rules_term import join_sites
         join_aw = [js for js in join_sites(ctx, par) if js["ready_bb"] is not None]
         ok3 = bool(join_aw) and site is not None and par.dominates(join_aw[0]["ready_bb"], site[1])
+        if not join_aw and par.kind == "coroutine" and par.parent in fb.bodies:
+            # the drain lives in a private async helper: its (only) call must come after the join in the caller
+            csites = [(cb_, cbb_, ct_) for (cb_, cbb_, ct_) in fl.call_sites().get(par.parent, []) if not fb.is_test_body(cb_)]
+            ok3 = bool(csites)
+            for cb_, cbb_, ct_ in csites:
+                ja = [js for js in join_sites(ctx, cb_) if js["ready_bb"] is not None]
+                if not (ja and cb_.dominates(ja[0]["ready_bb"], cbb_)):
+                    ok3 = False
         ctx.check(ok3, rule + "3", "drain-after-join|%s" % key, m.where(par, site[1]) if site else m.where(par),
                   "the RESULT receiver is drained only after the join of queuer and scheduler completed (every started future has finished)",
                   "the RESULT receiver is polled before / without the join having completed")
@@ -675,9 +703,15 @@ def I2(ctx, rule, tb, inc_idx):
                     if de.kind == "discr":
                         d = get_defs(fcl).unique_full(fcl.blocks[sb]["term"]["discr"]["pl"]["l"])
                         if d and "PollOutcome" in d[3]["rv"]["pl"]["ty"]:
+                            listed = {v for v, _ in fcl.blocks[sb]["term"]["targets"]}
                             for v in vals:
                                 if v != "otherwise":
                                     out.add(names.get(int(v), v))
+                                else:
+                                    # the `else` of a let-else / `_` arm: every variant that has no arm of its own
+                                    for dv, nm in names.items():
+                                        if str(dv) not in listed:
+                                            out.add(nm)
                 return out
             # (i) the push happens only for ids of the NoInterrupt arm
             push_ok = len(pushes) == 1
@@ -1203,6 +1237,18 @@ def Q_rules(ctx, rule="Q"):
         topo_new = []
         topo_step = []
         def graph_sources(bx, op):
+            # a field of a private iterator struct read in its own trait method: what THIS public method put into that field
+            sg = fb.fns.get(bx.id) or {}
+            if bx.id != b.id and sg.get("impl_trait") and sg.get("impl_self"):
+                ty = sg["impl_self"].split("<")[0].lstrip("&").strip()
+                ex = strip_refs(expr_operand(bx, op))
+                if ex.kind == "field" and strip_refs(ex[1]) == E(("arg", 1)) and isinstance(ex[2], int):
+                    outs = set()
+                    for bbq, siq, sq in b.stmts():
+                        if sq["k"] == "assign" and sq["rv"]["k"] == "agg" and sq["rv"].get("def") == ty and ex[2] < len(sq["rv"]["ops"]):
+                            outs |= set(fl.sources_operand(b, sq["rv"]["ops"][ex[2]]))
+                    if outs:
+                        return frozenset(outs)
             # through a shared private helper: resolve its parameter at the call site in this public method
             if bx.id != b.id and bx.kind == "fn":
                 from rules_build import lift_expr
@@ -1255,7 +1301,7 @@ def Q_rules(ctx, rule="Q"):
             ok3 = False
             why = "no lookup in self.graph"
             for bx, bb, t in lk:
-                cs = fields_of(fl.sources_operand(bx, t["args"][0]))
+                cs = fields_of(graph_sources(bx, t["args"][0]))
                 ids = fl.sources_operand(bx, t["args"][1])
                 topo_item = bool(ids) and all(s.kind == "alloc" and s[4] == TOPO_NEW and "$item" in s[3] for s in ids)
                 ok3 = cs == {roles["graph"]} and topo_item
@@ -1338,6 +1384,24 @@ def Q_rules(ctx, rule="Q"):
         if srcc:
             ge = strip_refs(expr_operand(b, srcc[0][1]["args"][0]))
             g_ok = ge.kind == "field" and ge[2] == roles["graph"] and strip_refs(ge[1]) == E(("arg", 1))
+        re5 = return_expr(b)
+        if not srcc and re5 is not None:
+            # delegation to a sibling that returns the node sequence (inlined by the chain walk)
+            ch5 = iterator_chain(ctx, b, re5)
+            hit = [c for c in ch5 if c[0].split("::")[-1] in alts and not c[0].startswith("inline:")]
+            sel = [c[0] for c in ch5 if c[0] in SELECTIVE_ITER or c[0] in MORE_ITER]
+            if len(hit) == 1:
+                srcc = [hit[0]]
+                from rules_build import subst_args
+                ge5 = strip_refs(hit[0][2][2][0])
+                cur5 = hit[0][1]
+                for k5 in range(ch5.index(hit[0]) - 1, -1, -1):
+                    if ch5[k5][0] == "inline:" + cur5.id:
+                        ge5 = strip_refs(subst_args(ge5, [strip_refs(x) for x in ch5[k5][2][2]]))
+                        cur5 = ch5[k5][1]
+                while ge5.kind in ("deref", "ref"):
+                    ge5 = strip_refs(ge5)
+                g_ok = cur5.id == b.id and ge5.kind == "field" and ge5[2] == roles["graph"] and strip_refs(ge5[1]) == E(("arg", 1))
         ctx.check(len(srcc) == 1 and not sel and g_ok, rule + "5", "insertion|%s" % nm, m.where(b),
                   "%s returns %s() of self.graph, unfiltered and unreordered" % (nm, fn_),
                   "%s: source calls %d, adaptors %s, on self.graph: %s" % (nm, len(srcc), sel, g_ok))
@@ -1405,6 +1469,15 @@ def G_rules(ctx, rule="G"):
         if len(pcs) == 1:
             asrc = fl.sources_operand(bx, pcs[0][1]["args"][1])
             arg_ok = bool(asrc)
+        elif not pcs and len(uses) == 1:
+            # `iter_insertion().map(&fn_info).for_each(|info| add_node(info))`: the caller's function is the map's function,
+            # applied by the adaptor to every iterated function
+            pb_, ubb_, ut_, ai_ = uses[0]
+            for c_ in iterator_chain(ctx, pb_, expr_operand(pb_, ut_["args"][0])):
+                if c_[0] == "std::iter::Iterator::map" and len(c_[2][2]) > 1:
+                    fe_ = strip_refs(c_[2][2][1])
+                    if fe_.kind in ("arg", "local") and c_[1].locals[fe_[1]].get("k") == "param":
+                        arg_ok = True
         ok1 = from_cb and chain_ok and arg_ok and not bx.back_edges() and not cond_guards(bx, bb)
         if not ok1:
             why = "weight from callback: %s; unfiltered insertion-order chain: %s; %s" % (from_cb, chain_ok, why)
@@ -1428,8 +1501,8 @@ def G_rules(ctx, rule="G"):
         for mp in reversed(maps):
             fcl = closure_of_arg(ctx, mp[1], mp[2][2][1])
             re_ = return_expr(fcl) if fcl is not None else None
-            if re_ is None or not (re_.kind == "agg" and re_[1] == "tuple" and len(re_[4]) == 3):
-                bad_map = "a map over the edges does not produce a 3-tuple"
+            if re_ is None or not (re_.kind == "agg" and re_[1] in ("tuple", "adt") and len(re_[4]) == 3):
+                bad_map = "a map over the edges does not produce a 3-tuple / 3-field struct"
                 break
             new = []
             for x in re_[4]:
